@@ -69,3 +69,18 @@ package lossy
 //@   ensures result2 == nil && result0[0] & 3 == 0 ==> len(result0) == 1 + len(data)
 //@   ensures result2 == nil && result0[0] & 3 == 0 ==> forall k int :: 0 <= k && k < len(data) ==> result0[1+k] == alphaSrc[k]
 //@   ensures result2 == nil && method == 0 ==> result0[0] & 3 == 0
+//
+// ---- C11: a pooled decoder is indistinguishable from a fresh one ----
+//
+// Every field is classified. "zero" fields equal their zero value when the
+// decoder is handed out; "scratch" fields are (re)written by the named phase
+// before anything reads them: proba by ResetProba/parseProba, dqm by
+// ParseQuant, fstrengths by precomputeFilterStrengths (proved above: all 8
+// slots), tl*/br* and every buffer by initFrame, cache strides/offsets by
+// initFrame, dcScratch per macroblock by parseResiduals.
+//@ func acquireDecoder
+//@   property C11
+//@   modifies *
+//@   ensures result != nil
+//@   resets result zero: frmHdr picHdr filterHdr segHdr mbW mbH mbX mbY br parts numPartsMinusOne useSkipProba skipP filterType AlphaData intraL \
+//@     scratch: tlMBX tlMBY brMBX brMBY proba dqm fstrengths intraT yuvT mbInfo fInfo yuvB mbData cacheY cacheU cacheV cacheYStride cacheUVStride cacheYOff cacheUOff cacheVOff slab dcScratch
